@@ -328,11 +328,29 @@ def promote : PType → PType
   | .bool | .i8 | .u8 | .i16 | .u16 | .i32 => .i32
   | t => t
 
-/-- primitive::addEq for bool/integer operands (float sums are not modelled: `none`) -/
+/-- `to<double>()` / `to<float>()`, evaluated with Lean's runtime floats (never reasoned about) -/
+def Prim.toF64 (p : Prim) : Float :=
+  match p.ty with
+  | .f64 => Float.ofBits p.val.toNat.toUInt64
+  | .f32 => (Float32.ofBits p.val.toNat.toUInt32).toFloat
+  | _ => Float.ofInt p.val
+
+def Prim.toF32 (p : Prim) : Float32 :=
+  match p.ty with
+  | .f64 => (Float.ofBits p.val.toNat.toUInt64).toFloat32
+  | .f32 => Float32.ofBits p.val.toNat.toUInt32
+  | _ => Float32.ofInt p.val
+
+/-- primitive::addEq: `a = a.to<T>() + b.to<T>()` with `T` the higher-ranked operand type; the sum of
+    two sub-`int` operands is an `int`.  Float sums use the runtime's IEEE arithmetic (tested through
+    the correspondence run only). -/
 def primAdd (a b : Prim) : Option Prim :=
   let t := maxTy a.ty b.ty
-  if t.isFloat || t = .none then none
-  else
+  match t with
+  | .none => none
+  | .f32 => some ⟨.f32, ((a.toF32 + b.toF32).toBits.toNat : Int), []⟩
+  | .f64 => some ⟨.f64, ((a.toF64 + b.toF64).toBits.toNat : Int), []⟩
+  | t =>
     let r := promote t
     some ⟨r, r.wrap (t.wrap a.toInt + t.wrap b.toInt), []⟩
 
